@@ -257,3 +257,184 @@ Proof.
         by (destruct fuel; cbn [drain]; [|rewrite Hq]; reflexivity).
       cbn zeta. rewrite E, app_nil_r, wadd_0 by assumption. repeat split; auto.
 Qed.
+
+(* ------------------------------------------------------------------ *)
+(* the invariant *)
+
+Definition hist (ops : list op) : list ev := map ev_of_p ops.
+
+Definition pos_ok (s : rq) (gq : list (N * qst)) : Prop :=
+  forall j id idx, nth_error gq j = Some (id, QWait idx) -> wsub idx (base s) = N.of_nat j.
+
+Record Inv (ops : list op) (s : rq) (gw : list (N * hres)) (gq : list (N * qst)) : Prop := mkInv {
+  i_base : base s < W64;
+  i_queue : queue s = map slot_of gq;
+  i_head : head_ok gq;
+  i_pos : pos_ok s gq;
+  i_pan : panicked s = false;
+  i_inl : forall i, response s = Some i -> In (i, QWait (response_idx s)) gq;
+  i_sp : forall i x, In (i, x) (spawned s) -> In (i, QWait x) gq;
+  i_nd : NoDup (map fst (spawned s));
+  i_ni : forall i, response s = Some i -> ~ In i (map fst (spawned s));
+  i_arr : arrivals (hist ops) = map fst gw ++ map fst gq;
+  i_ndA : NoDup (arrivals (hist ops));
+  i_w : forall i x, In (i, x) gw -> done_in i (hist ops) = Some (ans_of_p x);
+  i_q : forall i st, In (i, st) gq -> done_in i (hist ops) = st_done st;
+  i_d : forall i, done_in i (hist ops) <> None -> In i (arrivals (hist ops));
+  i_pend : forall i, mem i (pend_after [] (hist ops)) = true ->
+                     response s = Some i \/ In i (map fst (spawned s));
+  i_len : (length gq <= length ops)%nat;
+  i_out : out s = flat_map outp gw;
+  i_ok : forallb no_err_p ops = true -> error s = false /\ Forall (fun p => st_ok (snd p)) gq
+}.
+
+Lemma in_mid {A} (x a : A) l1 l2 : In x (l1 ++ l2) -> In x (l1 ++ a :: l2).
+Proof. rewrite !in_app_iff. cbn [In]. tauto. Qed.
+
+Lemma map_fst_mkready a : map fst (map mkready a) = map fst a.
+Proof. rewrite map_map. apply map_ext. reflexivity. Qed.
+
+Lemma not_wait_mkready i x a : ~ In (i, QWait x) (map mkready a).
+Proof. intros H. apply in_map_iff in H as (p & E & _). discriminate. Qed.
+
+(* a completion with result [r] reaches [handle_result] for the request [id] sitting in the queue
+   at position [length l1], whose call is no longer tracked by [response]/[spawned] *)
+Lemma mid ops s gw l1 id idx l2 r :
+  let gq := l1 ++ (id, QWait idx) :: l2 in
+  let h := hist ops in
+  base s < W64 -> queue s = map slot_of gq -> head_ok gq -> pos_ok s gq -> panicked s = false ->
+  N.of_nat (length gq) < W64 ->
+  (forall i, response s = Some i -> In (i, QWait (response_idx s)) (l1 ++ l2)) ->
+  (forall i x, In (i, x) (spawned s) -> In (i, QWait x) (l1 ++ l2)) ->
+  NoDup (map fst (spawned s)) ->
+  (forall i, response s = Some i -> ~ In i (map fst (spawned s))) ->
+  arrivals h = map fst gw ++ map fst gq -> NoDup (arrivals h) ->
+  (forall i x, In (i, x) gw -> done_in i h = Some (ans_of_p x)) ->
+  (forall i st, In (i, st) (l1 ++ l2) -> done_in i h = st_done st) ->
+  done_in id h = Some (ans_of_p r) ->
+  (forall i, done_in i h <> None -> In i (arrivals h)) ->
+  (forall i, mem i (pend_after [] h) = true -> response s = Some i \/ In i (map fst (spawned s))) ->
+  (length gq <= length ops)%nat ->
+  out s = flat_map outp gw ->
+  (forallb no_err_p ops = true ->
+   r <> HErr /\ error s = false /\ Forall (fun p => st_ok (snd p)) (l1 ++ l2)) ->
+  exists gw' gq', Inv ops (handle_result s r idx) gw' gq'.
+Proof.
+  intros gq h Hb Hq Hh Hpos Hpan Hlen Hinl Hsp Hnd Hni Harr HndA Hw Hqs Hdone Hd Hpend Hl Hout Hok.
+  assert (Hj : wsub idx (base s) = N.of_nat (length l1)).
+  { apply Hpos with id. apply nth_error_mid. }
+  unfold handle_result. rewrite Hj.
+  destruct l1 as [|y l1].
+  - (* the head of the queue: pop it and drain the ready slots behind it *)
+    cbn [length N.of_nat app] in *. rewrite N.eqb_refl.
+    set (s1 := apply_item (pop_front s) r).
+    destruct (gsplit_spec l2) as [Hsplit Hhb].
+    assert (Hq1 : queue s1 = map slot_of l2).
+    { unfold s1. rewrite ai_queue. cbn [pop_front queue]. rewrite Hq. reflexivity. }
+    assert (Hb1 : base s1 < W64).
+    { unfold s1. rewrite ai_base. cbn [pop_front base]. apply wadd_lt. }
+    destruct (drain_spec l2 (length (queue s1)) s1 Hq1) as (D1 & D2 & D3 & D4 & D5 & D6 & D7 & D8);
+      [rewrite Hq1, map_length; lia | assumption |].
+    set (a := fst (gsplit l2)) in *. set (b := snd (gsplit l2)) in *.
+    set (s' := drain (length (queue s1)) s1) in *.
+    unfold s1 in D2, D3, D4, D5, D6, D7, D8.
+    rewrite ai_base in D2. rewrite ai_response in D3. rewrite ai_ridx in D4. rewrite ai_spawned in D5.
+    rewrite ai_panicked in D6. rewrite (ai_out _ _ id) in D7. rewrite ai_error in D8.
+    cbn [pop_front base queue response response_idx error spawned out panicked] in D2, D3, D4, D5, D6, D7, D8.
+    assert (Hinb : forall p, In p b -> In p l2).
+    { intros p Hp. rewrite Hsplit. apply in_or_app. now right. }
+    assert (Hina : forall i x, In (i, x) a -> In (i, QReady x) l2).
+    { intros i x Hp. rewrite Hsplit. apply in_or_app. left.
+      apply in_map_iff. exists (i, x). split; auto. }
+    assert (Hwb : forall i x, In (i, QWait x) l2 -> In (i, QWait x) b).
+    { intros i x Hp. rewrite Hsplit in Hp. apply in_app_or in Hp as [Hp|Hp]; auto.
+      now apply not_wait_mkready in Hp. }
+    exists (gw ++ (id, r) :: a), b. constructor.
+    + rewrite D2. apply wadd_lt.
+    + exact D1.
+    + exact Hhb.
+    + intros j i x Hn. rewrite D2. apply wsub_shift, wsub_shift.
+      rewrite (Hpos (S (length (map mkready a) + j)) i x).
+      * rewrite map_length. lia.
+      * unfold gq. cbn [nth_error]. rewrite Hsplit. apply eq_trans with (2 := Hn).
+        apply nth_error_skip.
+    + now rewrite D6.
+    + rewrite D3, D4. intros i Hi. apply Hwb. now apply Hinl.
+    + rewrite D5. intros i x Hi. apply Hwb. now apply Hsp.
+    + now rewrite D5.
+    + rewrite D3, D5. exact Hni.
+    + fold h. rewrite Harr. unfold gq. rewrite Hsplit at 1.
+      cbn [map]. rewrite !map_app, map_fst_mkready. cbn [map fst app]. rewrite <- !app_assoc. reflexivity.
+    + exact HndA.
+    + intros i x Hi. apply in_app_or in Hi as [Hi|[Hi|Hi]].
+      * now apply Hw.
+      * injection Hi as <- <-. exact Hdone.
+      * apply Hina, Hqs in Hi. exact Hi.
+    + intros i st Hi. apply Hqs. now apply Hinb.
+    + exact Hd.
+    + rewrite D3, D5. exact Hpend.
+    + apply Nat.le_trans with (2 := Hl). unfold gq. cbn [length].
+      rewrite Hsplit at 1. rewrite app_length. lia.
+    + rewrite D7, Hout, flat_map_app. cbn [flat_map]. now rewrite <- app_assoc.
+    + intros Hne. destruct (Hok Hne) as (Hr & He & Hf). rewrite D8, He.
+      rewrite Forall_forall in Hf. split.
+      * replace (is_herr r) with false by (destruct r; auto; congruence).
+        rewrite !orb_false_r. apply not_true_is_false. intros Hex.
+        apply existsb_exists in Hex as ([i x] & Hi & Hx). cbn [snd] in Hx.
+        apply Hina, Hf in Hi. cbn [snd st_ok] in Hi. destruct x; auto; discriminate.
+      * apply Forall_forall. intros p Hp. apply Hf. now apply Hinb.
+  - (* a slot behind the head *)
+    set (L1 := y :: l1) in *.
+    assert (Hj0 : (N.of_nat (length L1) =? 0) = false).
+    { apply N.eqb_neq. unfold L1. cbn [length]. lia. }
+    rewrite Hj0.
+    set (st' := match r with HErr => QStuck | _ => QReady r end).
+    set (gq' := L1 ++ (id, st') :: l2).
+    assert (Hst' : forall x, st' <> QWait x) by (intros x; unfold st'; destruct r; discriminate).
+    assert (Hslot : map slot_of gq' = set_nth (length L1) (slot_of (id, st')) (queue s)).
+    { rewrite Hq. unfold gq, gq'. rewrite !map_app. cbn [map].
+      rewrite <- (map_length slot_of L1). now rewrite set_nth_mid. }
+    assert (Hlt : (N.of_nat (length L1) <? lenN (queue s)) = true).
+    { apply N.ltb_lt. unfold lenN. rewrite Hq, map_length. unfold gq. rewrite app_length.
+      cbn [length]. lia. }
+    set (s' := match r with
+               | HErr => apply_item s HErr
+               | _ => if N.of_nat (length L1) <? lenN (queue s) then _ else _
+               end).
+    assert (HS : base s' = base s /\ queue s' = map slot_of gq' /\ response s' = response s /\
+                 response_idx s' = response_idx s /\ spawned s' = spawned s /\ out s' = out s /\
+                 panicked s' = false /\ error s' = is_herr r || error s).
+    { unfold s'. rewrite Hlt, Nat2N.id, Hslot. unfold st'.
+      destruct r; cbn [apply_item base queue response response_idx error spawned out panicked
+                        slot_of snd is_herr orb]; repeat split; auto.
+      rewrite Hq. unfold gq. rewrite !map_app. cbn [map].
+      rewrite <- (map_length slot_of L1), set_nth_mid. reflexivity. }
+    destruct HS as (S1 & S2 & S3 & S4 & S5 & S6 & S7 & S8).
+    exists gw, gq'. constructor.
+    + now rewrite S1.
+    + exact S2.
+    + unfold gq'. unfold L1. destruct y as [? [?|?|]]; exact Hh.
+    + intros k i x Hn. rewrite S1. apply (Hpos k i x).
+      destruct (Nat.eq_dec k (length L1)) as [->|Hk].
+      * unfold gq' in Hn. rewrite nth_error_mid in Hn. injection Hn as _ Hn. now apply Hst' in Hn.
+      * unfold gq. rewrite <- Hn. now apply nth_error_mid_other.
+    + exact S7.
+    + rewrite S3, S4. intros i Hi. apply in_mid. now apply Hinl.
+    + rewrite S5. intros i x Hi. apply in_mid. now apply Hsp.
+    + now rewrite S5.
+    + rewrite S3, S5. exact Hni.
+    + fold h. rewrite Harr. unfold gq, gq'. rewrite !map_app. reflexivity.
+    + exact HndA.
+    + exact Hw.
+    + intros i st Hi. apply in_elt_inv in Hi as [Hi|Hi].
+      * injection Hi as <- <-. fold h. rewrite Hdone. unfold st'. destruct r; reflexivity.
+      * now apply Hqs.
+    + exact Hd.
+    + rewrite S3, S5. exact Hpend.
+    + apply Nat.le_trans with (2 := Hl). unfold gq, gq'. rewrite !app_length. reflexivity.
+    + now rewrite S6.
+    + intros Hne. destruct (Hok Hne) as (Hr & He & Hf). rewrite S8, He.
+      split; [destruct r; auto; congruence|].
+      rewrite Forall_forall in *. intros p Hp. apply in_elt_inv in Hp as [<-|Hp]; auto.
+      unfold st'. destruct r; cbn; auto.
+Qed.
